@@ -68,6 +68,9 @@ def c12():
                     bounds={'schema': '(i8,u8,i16,u16,i32,u32,i64,u64,f32,f64) forwards, backwards, then (i8,u8)'}))
     qs.append(Query('enc-growth', U('enc.cpp'), 'h_growth', unwind=40, unwindset=['m_memcpy.0:300'], about='34 symbolic u64 components crossing the 256-byte internal buffer; reset() reuse',
                     bounds={'components': 34}, checks='pointer'))
+    qs.append(Query('enc-growth-2', U('enc.cpp', defines=['NCOMP=66']), 'h_growth', unwind=70, unwindset=['m_memcpy.0:600'],
+                    about='66 symbolic u64 components: the buffer grows twice (256-byte internal buffer -> 512-byte heap buffer -> 1024-byte heap buffer) while it holds data; reset() reuse',
+                    bounds={'components': 66}, checks='pointer'))
     return Check('C12', 'model_checking', qs,
                  explanation='Round trip of every value of every fixed-width type (bit-exact, NaN canonicalised); widths; buffer growth across the '
                              'internal-buffer limit with all component values symbolic and a symbolic probe position; reuse after reset().')
@@ -151,8 +154,8 @@ NODE_Q = [  # (entry, unwind, tier, about)
     ('n16_find_5', 20, 'quick'), ('n16_find_11', 20, 'quick'), ('n16_find_16', 20, 'quick'), ('n16_add_5', 20, 'quick'), ('n16_add_15', 20, 'quick'),
     ('n16_rem_6_0', 20, 'quick'), ('n16_rem_16_7', 20, 'quick'), ('n16_rem_16_15', 20, 'quick'),
     ('n48_find', 260, 'quick'), ('n48_ends', 260, 'quick'), ('n48_rem_first', 260, 'quick'), ('n48_rem_mid', 260, 'quick'),
-    ('n48_add', 260, 'quick'), ('n48_step', 260, 'thorough'), ('n48_bound', 260, 'thorough'),
-    ('n256_find', 260, 'quick'), ('n256_ends', 260, 'quick'), ('n256_add_remove', 260, 'quick'), ('n256_step', 260, 'thorough'), ('n256_bound', 260, 'thorough')] + \
+    ('n48_add', 260, 'quick'), ('n48_step', 260, 'deep'), ('n48_bound', 260, 'deep'),     # symbolic-probe enumeration: SAT did not finish in 3400 s (final thorough run); the concrete boundary probes n48_enum_* replace them
+    ('n256_find', 260, 'quick'), ('n256_ends', 260, 'quick'), ('n256_add_remove', 260, 'quick'), ('n256_step', 260, 'deep'), ('n256_bound', 260, 'deep')] + \
     [('n%s_enum_%s' % (c_, k_), 260, 'quick') for c_ in ('48', '256') for k_ in ('00', '01', '7F', '80', '81', 'FE', 'FF')]
 NODE_ABOUT = {'enum': 'find_child/next/prior/gte/lte for a concrete probe byte from the boundary classes, node content a symbolic bitmap', 'find': 'find_child + begin/last/next/prior/gte/lte', 'add': 'add_to_nonfull of an absent key byte', 'rem': 'remove of one child',
               'ends': 'begin()/last()', 'step': 'next()/prior() from a symbolic position', 'bound': 'gte_key_byte()/lte_key_byte() of a symbolic probe', 'add_remove': 'add then remove'}
@@ -165,9 +168,9 @@ def node_queries(config='base', tier_all=None, only_prefix=None):
     for entry, unwind, tier in NODE_Q:
         cls = entry.split('_')[0]
         op = '_'.join(x for x in entry.split('_')[1:] if not x.isdigit()) or 'find'
-        heavy = tier == 'thorough' or entry == 'n48_add'
+        heavy = tier in ('thorough', 'deep') or entry == 'n48_add'
         qs.append(Query('node-' + entry + sfx, u, entry, unwind=unwind, flags=['--max-field-sensitivity-array-size', '512'],
-                        loop_bounds=[('^n48_add$', 20)], tier=tier_all or tier, timeout=3400 if heavy else None, mem_gb=40 if heavy else None, weight=4 if heavy else 1,
+                        loop_bounds=[('^n48_add$', 20)], tier='deep' if tier == 'deep' else (tier_all or tier), timeout=3400 if heavy else None, mem_gb=40 if heavy else None, weight=4 if heavy else 1,
                         about='%s node in an arbitrary valid state (all key bytes symbolic, child count fixed by the query), %s' % (cls.upper().replace('N', 'I'), NODE_ABOUT.get(op, op)),
                         bounds={'node': cls, 'children': entry, 'key_bytes': 'all symbolic'}))
     for entry in ('n48_addslot_46', 'n48_addslot_33'):
@@ -185,7 +188,7 @@ def big_queries(kind='db', config='base', tier='quick'):
                   loop_bounds=[('::(get|insert|remove)_internal', 3 if h != 'deep_split_get' else 6), ('::try_(get|insert|remove)', 3 if h != 'deep_split_get' else 6), ('inode_256', 260), ('inode_48', 260), (r'^void big_get', 60)],
                   about='tree grown/shrunk through the node size classes by 17-51 concrete inserts/removes (%s), then get(k) for a fully symbolic key' % what,
                   bounds={'prelude': h, 'symbolic_ops': 1, 'key_bits': 64})
-            for h, what in (('deep_split_get', 'key-prefix splits below the root at three positions and a collapse'), ('big_i48', 'I4->I16->I48'), ('big_i256', '->I256'), ('big_shr16', 'I48->I16'), ('big_shr48', 'I256->I48'), ('big_shr4', 'I48->I16->I4'))]
+            for h, what in (('deep_split_get', 'key-prefix splits below the root at three positions and a collapse'), ('big_rem48_00', 'I48 with children at the boundary key bytes 00/01/7F/80/81/FE/FF: remove of the key with byte 00, get of it, get of a second key symbolic in the child-selecting byte'), ('big_rem48_01', 'I48 with children at the boundary key bytes 00/01/7F/80/81/FE/FF: remove of the key with byte 01, get of it, get of a second key symbolic in the child-selecting byte'), ('big_rem48_7F', 'I48 with children at the boundary key bytes 00/01/7F/80/81/FE/FF: remove of the key with byte 7F, get of it, get of a second key symbolic in the child-selecting byte'), ('big_rem48_80', 'I48 with children at the boundary key bytes 00/01/7F/80/81/FE/FF: remove of the key with byte 80, get of it, get of a second key symbolic in the child-selecting byte'), ('big_rem48_81', 'I48 with children at the boundary key bytes 00/01/7F/80/81/FE/FF: remove of the key with byte 81, get of it, get of a second key symbolic in the child-selecting byte'), ('big_rem48_FE', 'I48 with children at the boundary key bytes 00/01/7F/80/81/FE/FF: remove of the key with byte FE, get of it, get of a second key symbolic in the child-selecting byte'), ('big_rem48_FF', 'I48 with children at the boundary key bytes 00/01/7F/80/81/FE/FF: remove of the key with byte FF, get of it, get of a second key symbolic in the child-selecting byte'), ('big_rem48_02', 'I48 with children at the boundary key bytes 00/01/7F/80/81/FE/FF: remove of the key with byte 02, get of it, get of a second key symbolic in the child-selecting byte'), ('big_rem256_00', 'I256 with children at the boundary key bytes 00/01/7F/80/81/FE/FF: remove of the key with byte 00, get of it, get of a second key symbolic in the child-selecting byte'), ('big_rem256_01', 'I256 with children at the boundary key bytes 00/01/7F/80/81/FE/FF: remove of the key with byte 01, get of it, get of a second key symbolic in the child-selecting byte'), ('big_rem256_7F', 'I256 with children at the boundary key bytes 00/01/7F/80/81/FE/FF: remove of the key with byte 7F, get of it, get of a second key symbolic in the child-selecting byte'), ('big_rem256_80', 'I256 with children at the boundary key bytes 00/01/7F/80/81/FE/FF: remove of the key with byte 80, get of it, get of a second key symbolic in the child-selecting byte'), ('big_rem256_81', 'I256 with children at the boundary key bytes 00/01/7F/80/81/FE/FF: remove of the key with byte 81, get of it, get of a second key symbolic in the child-selecting byte'), ('big_rem256_FE', 'I256 with children at the boundary key bytes 00/01/7F/80/81/FE/FF: remove of the key with byte FE, get of it, get of a second key symbolic in the child-selecting byte'), ('big_rem256_FF', 'I256 with children at the boundary key bytes 00/01/7F/80/81/FE/FF: remove of the key with byte FF, get of it, get of a second key symbolic in the child-selecting byte'), ('big_rem256_02', 'I256 with children at the boundary key bytes 00/01/7F/80/81/FE/FF: remove of the key with byte 02, get of it, get of a second key symbolic in the child-selecting byte'), ('big_i48', 'I4->I16->I48'), ('big_i256', '->I256'), ('big_shr16', 'I48->I16'), ('big_shr48', 'I256->I48'), ('big_shr4', 'I48->I16->I4'))]
 
 
 def kv_queries(pid='C01'):
@@ -278,6 +281,14 @@ def c02():
           Query('artkey-u64', kc, 'h_artkey_u64', unwind=12, about='art_key<uint64> cmp/operator[]/shift_right for all pairs of keys', bounds={'inputs': '2 x 64 bit'}),
           Query('artkey-keyview', kc, 'h_artkey_kv', unwind=12, about='art_key<key_view> cmp for byte strings of length 1..4 in two distinct buffers', bounds={'len_max': 4})]
     qs += scan_queries('db', 'base') + node_queries('base')
+    # the OLC instantiation has its own seek/next/prior (olc_art.hpp try_seek ...): constant operation sequences with all five scan forms, bounds that
+    # fall off nodes and diverge inside key prefixes at and below the root, symbolic halting position, full visiting-order oracle
+    uo = U('olc_dbg.cpp', 'base', defines=['UNODB_DETAIL_VERIF_FIXED_ITER_STACK=6'], max_node_type=2,
+           stubs=['tag_ptr', 'node_type', 'node_ptr', 'lib_abort', 'keybuf_noop'], noinline=['@_ZN5unodb6detail10key_buffer(4push|3pop)E'], cdefs=['IR2C_NULL_GUARD'])
+    for e in OLC_DBG_SEQ:
+        qs.append(Query('olcseq-' + e, uo, e, unwind=14, flags=['--slice-formula'], replay='native',
+                        about='olc_db, one thread: %s; visiting order compared with the sorted map; the halting position of the visitors is symbolic' % OLC_DBG_SEQ[e],
+                        bounds={'sequence': 'constant', 'halt': 'symbolic 1..12', 'tree': '<= 3 inner levels, I4/I16'}))
     return Check('C02', 'model_checking', qs,
                  assumptions=['iterators are backed by the guarded hook UNODB_DETAIL_VERIF_FIXED_ITER_STACK (fixed-capacity stack, capacity 6, overflow = abort = assertion) instead of std::stack<std::deque>',
                               'iterator key_buffer push/pop are stubbed as no-ops: the buffer is write-only (get_key() reads the leaf) - checked by reading art.hpp:1345-1357',
@@ -285,7 +296,7 @@ def c02():
                  explanation='L1: comparison kernels for all inputs. L3: complete forward/reverse scans with a symbolic halting position on every catalogue shape (decided mostly by constant '
                              'propagation, the halt position by SAT); seek / scan_from / scan_range with fully symbolic 64-bit bounds on the shapes where the SAT instance fits '
                              '(root leaf in the quick tier; 3-leaf I4, the minimal fall-off-an-inner-node shape and others in the thorough tier). Outside: symbolic bounds on trees with more than '
-                             'two inode levels (instance > 40 GB), byte-string keys at tree level, mutex/OLC instantiations (see C13/C16).')
+                             'two inode levels (instance > 40 GB), byte-string keys at tree level, the mutex instantiation (see C13); the OLC instantiation is covered by constant sequences (olcseq-*), not by symbolic bounds.')
 
 
 OLC_DBG_SEQ = {
@@ -300,6 +311,10 @@ OLC_DBG_SEQ = {
     'd_deep_get_insert': 'get and insert through three inner levels, then a removal',
     'd_deep_miss': 'failing remove/get through three inner levels, duplicate insert, removal of an absent key',
     'd_deep_scan': 'scan_from through three inner levels, removals, reverse scan',
+    'd_pfx_root': 'scan_from / scan_range whose bound diverges inside the key prefix of the ROOT inner node, on either side, both directions',
+    'd_pfx_below_lo': 'scan_from whose bound diverges inside the key prefix of an inner node BELOW the root, bound byte smaller than the prefix byte, both directions',
+    'd_pfx_below_hi': 'scan_from whose bound diverges inside the key prefix of an inner node below the root, bound byte larger than the prefix byte, both directions',
+    'd_pfx_below_range': 'scan_range with both bounds diverging inside key prefixes of inner nodes below the root, both directions',
 }
 
 
@@ -327,7 +342,7 @@ def c16():
     for cfg in ('debug', 'nsdebug'):
         ud = U('olc_dbg.cpp', cfg, defines=['UNODB_DETAIL_VERIF_FIXED_ITER_STACK=6'], max_node_type=2,
                stubs=['tag_ptr', 'node_type', 'node_ptr', 'lib_abort', 'keybuf_noop'], noinline=['@_ZN5unodb6detail10key_buffer(4push|3pop)E'],
-               extra_glue=['qptr_glue.c'], extern_c=QPTR_EXT)
+               extra_glue=['qptr_glue.c'], extern_c=QPTR_EXT, cdefs=['IR2C_NULL_GUARD'])
         for e in OLC_DBG_SEQ:
             qs.append(Query('olcdbg-%s%s' % (e, '' if cfg == 'debug' else '-nostats'), ud, e, unwind=14, flags=['--slice-formula'], replay='native',
                             tier='quick' if cfg == 'debug' else 'thorough',
@@ -355,6 +370,10 @@ def c13():
     qs = [Query('mx-' + h, u, 'mx_' + h, unwind=10, flags=['--slice-formula'], loop_bounds=lb,
                 about='mutex_db over a 3-entry tree: %s with a fully symbolic key; ghost mutex state checked at every inner-index entry and every return' % h,
                 bounds={'prelude': 'i4_3', 'symbolic_ops': 1, 'key_bits': 64}) for h in ('get', 'insert', 'remove', 'scan_clear', 'stats')]
+    qs.append(Query('mx-contended', u, 'mx_contended', unwind=10, flags=['--slice-formula'], loop_bounds=lb,
+                    about='another thread holds the index mutex (ghost flag: lock() waits = the run ends, try_lock() fails): every public method (symbolic choice of 16, symbolic key) must wait; '
+                          'none may enter the inner index (entry hooks) or return',
+                    bounds={'prelude': 'i4_3', 'symbolic_ops': 1, 'op_choice': 16, 'key_bits': 64}))
     SF = ['zero', 'k0', 'k0p', 'k1', 'k2', 'k2p', 'max', 'other']
     SR = ['k0_k2', 'k2_k0', 'all_up', 'all_down', 'equal', 'mid_up', 'mid_down', 'full_up', 'full_down']
     for h in ['sf_%s_%s' % (n, d) for n in SF for d in 'fr'] + ['sr_' + n for n in SR]:
@@ -590,6 +609,7 @@ QSBR_SCEN = {  # scenario -> (max preemption index, what)
     'q_epoch_vs_2pause': (60, 'the last quiescent state of an epoch (epoch change, orphan ageing) preempted by two departures that orphan requests'),
     'q_epoch_vs_2pause_prev': (60, 'epoch change preempted by two departures holding previous-interval requests while an older orphaned list is aged (tail-append fallback of the orphan hand-over)'),
     'q_epoch_vs_pause': (60, 'epoch change preempted by one departure with pending requests; three-round bound'),
+    'q_2retire_new_epoch': (40, 'three retires by one thread after an epoch change completed by the others and before its own next quiescent state; none may be lost'),
     'q_pause_vs_retire': (60, 'a departure that advances the epoch preempted by retires of the others'),
     'q_pause_vs_q': (60, 'a departure preempted by quiescent states of the others; three-round bound'),
     'q_pause_vs_pause': (60, 'two departures with pending current-interval requests pushing onto the same orphan list (CAS retry)'),
@@ -600,7 +620,7 @@ QSBR_SCEN = {  # scenario -> (max preemption index, what)
     'q_q_vs_pause': (60, 'a quiescent state preempted by a departure with pending requests'),
     'q_q_vs_resume': (60, 'a quiescent state preempted by a resume and a retire'),
 }
-QSBR_QUICK = {'q_leave_orphan', 'q_pause_vs_pause', 'q_epoch_vs_2pause_prev', 'q_pause_vs_retire', 'q_resume_vs_q', 'q_q_vs_pause'}
+QSBR_QUICK = {'q_2retire_new_epoch', 'q_leave_orphan', 'q_pause_vs_pause', 'q_epoch_vs_2pause_prev', 'q_pause_vs_retire', 'q_resume_vs_q', 'q_q_vs_pause'}
 
 
 def qsbr_wrappers():
